@@ -667,3 +667,59 @@ Proof.
   - exists fs0, o0. split; [reflexivity | apply count_keys_plural].
   - rewrite populate_plural, (H a (or_introl eq_refl)). apply IH. intros a' Ha'. apply H. right. exact Ha'.
 Qed.
+
+(** * The keys a range / plural closure clones = the union over its branches *)
+
+Lemma branch_keys_run : forall bs, branch_keys bs = run (flat_map events bs) (ILit LString).
+Proof.
+  intros bs. unfold branch_keys. apply fold_res_run. apply Forall_forall. intros x _ s. apply gki_events.
+Qed.
+
+Lemma perm_flat_events : forall (bs bs' : list pv), Permutation bs bs' -> Permutation (flat_map events bs) (flat_map events bs').
+Proof. intros bs bs' H. apply Permutation_flat_map. exact H. Qed.
+
+(** C08_range_closure_keys_union: the collected keys are exactly the variables, components and counts occurring in some
+    branch — literal-only branches contribute nothing and erase nothing — and do not depend on the order of the branches *)
+Theorem range_closure_keys_union : forall bs s,
+  branch_keys bs = KOk s ->
+  sig_is s (flat_map events bs) /\
+  (forall bs' s', Permutation bs bs' -> branch_keys bs' = KOk s' -> sig_equiv s s').
+Proof.
+  intros bs s H. rewrite branch_keys_run in H.
+  assert (Hsig : forall l st, run (flat_map events l) (ILit LString) = KOk st -> sig_is st (flat_map events l)).
+  { intros l st Hr. pose proof (run_inv (flat_map events l) [] (ILit LString) inv_start) as Hi. rewrite Hr in Hi.
+    inversion Hi as [st' Hinv|]; subst. cbn [app] in Hinv. apply inv_sig_is. exact Hinv. }
+  split; [apply Hsig; exact H|].
+  intros bs' s' Hp H'. rewrite branch_keys_run in H'.
+  destruct (Hsig _ _ H) as [A1 [B1 [C1 D1]]]. destruct (Hsig _ _ H') as [A2 [B2 [C2 D2]]].
+  pose proof (perm_flat_events _ _ Hp) as Hpe.
+  assert (Hin : forall (B : Type) (g : event -> list B) y,
+             In y (flat_map g (flat_map events bs)) <-> In y (flat_map g (flat_map events bs'))).
+  { intros B g y. split; apply Permutation_in; apply Permutation_flat_map; [exact Hpe | apply Permutation_sym; exact Hpe]. }
+  unfold sig_equiv. repeat split.
+  - intros Hx. apply A2. apply (Hin _ _ _). apply A1. exact Hx.
+  - intros Hx. apply A1. apply (Hin _ _ _). apply A2. exact Hx.
+  - intros Hx. apply B2. apply B1 in Hx. destruct Hx as [Hx|Hx]; [left|right];
+      apply in_map_iff in Hx; destruct Hx as [p [Hp1 Hp2]]; apply in_map_iff; exists p; (split; [exact Hp1|]); apply (Hin _ _ _); exact Hp2.
+  - intros Hx. apply B1. apply B2 in Hx. destruct Hx as [Hx|Hx]; [left|right];
+      apply in_map_iff in Hx; destruct Hx as [p [Hp1 Hp2]]; apply in_map_iff; exists p; (split; [exact Hp1|]); apply (Hin _ _ _); exact Hp2.
+  - intros Hx. apply C2. apply (Hin _ _ _). apply C1. exact Hx.
+  - intros Hx. apply C1. apply (Hin _ _ _). apply C2. exact Hx.
+  - intros x. destruct (ct (ikm s) x) as [t|] eqn:E1.
+    + symmetry. apply D2. apply (Hin _ _ _). apply D1. exact E1.
+    + destruct (ct (ikm s') x) as [t|] eqn:E2; [|reflexivity].
+      apply D2 in E2. apply (Hin _ _ _) in E2. apply D1 in E2. congruence.
+Qed.
+
+(** with the count key added (repaired code), the closure owns a clone of the count too *)
+Lemma closure_keys_count : forall ck bs s, closure_keys ck bs = KOk s -> In ck (map fst (sig_vars s)).
+Proof.
+  intros ck bs s H. unfold closure_keys in H. destruct (branch_keys bs) as [s0|e]; [|discriminate]. inversion H; subst.
+  unfold sig_vars, push_var. cbn [ikm ik_vars]. apply keys_vmodify. left. reflexivity.
+Qed.
+
+(** the seeded variant (is_top = true) forgets the keys of the branches before a literal-only branch *)
+Example branch_keys_top_loses :
+  branch_keys [PVar 1 0; PLit LString] = KOk (IInterpol (mk_ik [] [(1, mk_vi [0] None)])) /\
+  branch_keys_top [PVar 1 0; PLit LString] = KOk (ILit LString).
+Proof. split; vm_compute; reflexivity. Qed.
